@@ -293,6 +293,8 @@ def suyamaCurveFin (a b gx gy : Fin n) (seed : Nat) : Res (CurveData (Fin n)) :=
 def fromPointFin (chk : Bool) (x y : Nat) : Res (CurveData (Fin n)) := fromPoint chk (finCtx n) x y
 /-- `do_curve(seed)` of `ecm::ecm(n, ..)` up to the call of `ecm_curve` -/
 def selectCurveFin (chk : Bool) (a b gx gy : Fin n) (seed : Nat) : Sel (Fin n) := selectCurve chk (finCtx n) a b gx gy seed
+/-- one curve of `ecm128::ecm(n, ..)` -/
+def select128Fin (a b gx gy : Fin n) (seed : Nat) : Sel128 (Fin n) := select128 (finCtx n) a b gx gy seed
 end
 
 end Ymq.Suyama
